@@ -362,3 +362,104 @@ Theorem C14_source_end_to_end_header : forall scfg0 cam flag power start wf h m 
         hw_decoded hw' = [h] /\
         exists hi, r = Some (hi, 0) /\ hdr_view hw' hi = Some (sender_fields scfg0 m))).
 Proof. exact end_to_end_header. Qed.
+
+(* ---- the accept loop of the recorder daemon (runMain in cmd/thermal-recorder/main.go) ----
+   translated/MainLoop.v is the Go code as it is now (the tail of runMain from startService on: start-up calls, the
+   goroutine, the endless loop os.Remove / net.Listen / Accept / listener.Close / handleConn); model/MainExt.v states
+   what the calls that leave it mean (a script of rounds: Accept fails | a camera connects and handleConn returns r;
+   net.Listen fails when the script is used up; the socket path is a file; listeners and connections are fresh tokens;
+   every call is an entry of a log); proofs/TieMain.v.  handleConn itself is the translated function of
+   C14_source_conn above; here: how it is CALLED. *)
+From TR Require Import translated.MainLoop model.MainExt proofs.TieMain.
+
+(* the loop as written, for EVERY fuel and every world in which no connection is waiting: it returns - the error of the
+   failing Listen - iff the fuel exceeds the script; otherwise the fuel runs out after exactly [fuel] rounds.  Nothing but
+   a failing net.Listen ends the loop *)
+Theorem C14_source_accept_loop_tie : forall fuel w,
+    mw_acc w = None ->
+    forever fuel (MainLoop_fn_runMain_tail_loop1 mext) tt w =
+      if (List.length (mw_its w) <? fuel)%nat
+      then Ok (Some (Zpos (mw_fin w))) (after_fin (after_iters w (mw_its w)))
+      else Ok None (after_iters w (firstn fuel (mw_its w))).
+Proof. exact tie_loop. Qed.
+
+(* a full run from startService on: result and log are [daemon_result] / [daemon_log] - the start-up calls, then per
+   round of the script [iter_log], then the Remove and the failing Listen *)
+Theorem C14_source_accept_loop_run : forall fuel start host clean its fin stale next,
+    (List.length its < fuel)%nat ->
+    exists w',
+      src_main fuel start host clean its fin stale next = Ok (Some (daemon_result start host clean fin)) w' /\
+      mw_log w' = daemon_log start host clean its fin next /\
+      mw_open w' = daemon_leaks start host clean its next.
+Proof. exact main_run. Qed.
+
+Theorem C14_source_accept_loop_log_unfolded : forall its fin n,
+    daemon_log None None None its fin n =
+      [MStart; MHost; MClean; MSpawn] ++ rounds_log n its ++ [MRemove; MListenFail (Zpos fin)] /\
+    (forall it r, rounds_log n (it :: r) = iter_log n it ++ rounds_log (n + iter_toks it) r) /\
+    (forall e, iter_log n (ItAcceptFail e) = [MRemove; MListen n; MAcceptFail n (Zpos e)]) /\
+    (forall r, iter_log n (ItServe r) = [MRemove; MListen n; MAccept n (n + 1); MClose n; MHandle (n + 1) r None]).
+Proof. exact daemon_log_unfolded. Qed.
+
+(* while the script lasts the loop does not return, whatever handleConn and Accept answered *)
+Theorem C14_source_accept_loop_never_returns : forall fuel its fin stale next,
+    (fuel <= List.length its)%nat ->
+    exists w',
+      src_main fuel None None None its fin stale next = Ok None w' /\
+      mw_log w' = [MStart; MHost; MClean; MSpawn] ++ rounds_log next (firstn fuel its) /\
+      mw_its w' = skipn fuel its.
+Proof. exact main_run_short. Qed.
+
+(* connections are served strictly one after the other: EVERY handleConn entry is immediately preceded by its own
+   Remove, Listen l, Accept l c, Close l - in that order, c the connection it is given - and while it ran no listener was
+   bound to the socket path (the listener is closed BEFORE the connection is handled: no second camera can connect) *)
+Theorem C14_source_accept_loop_handle_preceded : forall start host clean its fin n pre c r reach post,
+    daemon_log start host clean its fin n = pre ++ MHandle c r reach :: post ->
+    reach = None /\ exists pre' l, pre = pre' ++ [MRemove; MListen l; MAccept l c; MClose l].
+Proof. exact handle_preceded. Qed.
+
+(* whatever handleConn returns, the loop goes on: the handleConn entries, in order, are exactly the serving rounds of the
+   script with their results *)
+Theorem C14_source_accept_loop_handled_all : forall its fin n,
+    handled (daemon_log None None None its fin n) = serves its.
+Proof. exact handled_all. Qed.
+
+(* a failed Accept serves nothing and listens again: Remove, Listen, the failed Accept, then the Remove and the Listen of
+   the next round (or the failing Listen that ends the daemon).  The listener of the failed round is NOT closed *)
+Theorem C14_source_accept_loop_accept_fails : forall p1 e p2 fin n,
+    let l := rounds_next n p1 in
+    daemon_log None None None (p1 ++ ItAcceptFail e :: p2) fin n =
+      [MStart; MHost; MClean; MSpawn] ++ rounds_log n p1 ++
+      [MRemove; MListen l; MAcceptFail l (Zpos e)] ++
+      rounds_log (l + 1) p2 ++ [MRemove; MListenFail (Zpos fin)] /\
+    exists x post,
+      rounds_log (l + 1) p2 ++ [MRemove; MListenFail (Zpos fin)] = MRemove :: x :: post /\
+      (x = MListen (l + 1) \/ x = MListenFail (Zpos fin)).
+Proof. exact accept_fail_round. Qed.
+
+(* observation (not a violation of C14): the listeners never closed are those whose Accept failed - one file
+   descriptor per failing round; their socket file is removed by the next round, so nothing can connect to them *)
+Theorem C14_source_accept_loop_leaks : forall its n,
+    List.length (daemon_leaks None None None its n) = accept_fails its.
+Proof. exact daemon_leaks_count. Qed.
+
+Theorem C14_source_accept_loop_no_bad_call : forall start host clean its fin n,
+    bad_calls (daemon_log start host clean its fin n) = [].
+Proof. exact daemon_log_no_bad. Qed.
+
+(* non-vacuity (evaluated): a stale socket file; Accept fails once, two cameras are served (handleConn returns an error,
+   then nil), Listen fails; and a run cut by the fuel after two rounds *)
+Example C14_source_accept_loop_ex :
+  show_main (src_main 10 None None None [ItAcceptFail 5; ItServe 77; ItServe 0] 9 true 100) =
+    Some (Some 9,
+          [MStart; MHost; MClean; MSpawn;
+           MRemove; MListen 100; MAcceptFail 100 5;
+           MRemove; MListen 101; MAccept 101 102; MClose 101; MHandle 102 77 None;
+           MRemove; MListen 103; MAccept 103 104; MClose 103; MHandle 104 0 None;
+           MRemove; MListenFail 9],
+          [100]) /\
+  show_main (src_main 2 None None None [ItServe 1; ItServe 2; ItServe 3] 9 false 1) =
+    Some (None, [MStart; MHost; MClean; MSpawn;
+                 MRemove; MListen 1; MAccept 1 2; MClose 1; MHandle 2 1 None;
+                 MRemove; MListen 3; MAccept 3 4; MClose 3; MHandle 4 2 None], []).
+Proof. exact (conj ex_main ex_main_fuel). Qed.
